@@ -94,7 +94,13 @@ Enter(m, t) ==
       eff == IF Knot(t).auto THEN SelectSeq(from, LAMBDA c : c = Knot(t).chain[1]) ELSE from IN
   VisitAll(m, Knot(t).chain, eff)
 
-Fail(m, kind) == [m EXCEPT !.err = kind, !.st = "end", !.th = << <<>> >>]
+\* the only thread of the flow stops where it stands: the pointer of its current element is dropped, the call stack
+\* (with its temporary variables) stays as it is
+Halted(t) == IF t = <<>> THEN t ELSE <<[Head(t) EXCEPT !.fr = <<>>]>> \o Tail(t)
+Halt(m) == [m EXCEPT !.th = << Halted(Head(m.th)) >>]
+\* END: the call stack is reset to a single element without position and without temporaries
+Fresh == << <<[kind |-> "root", fr |-> <<>>, temps |-> <<>>, fnStart |-> 0, fnStart0 |-> 0, cont |-> [mode |-> "drop"]]>> >>
+Fail(m, kind) == [m EXCEPT !.err = kind, !.st = "end", !.th = Fresh]
 
 (***************************************************************************)
 (* Expressions (pure except function calls, which are run by the machine:  *)
@@ -168,10 +174,10 @@ PushFrame(m, b) == LET a == CurAct(m) IN SetAct(m, [a EXCEPT !.fr = <<Frame(b)>>
 \* jump of the current activation to the start of a knot / stitch / label: the frames of the activation are replaced
 \* entering a knot from outside counts a visit
 Goto(m, target) ==
-  IF target = "END" THEN [m EXCEPT !.st = "end", !.th = << <<>> >>, !.safe = TRUE, !.ch = <<>>]
+  IF target = "END" THEN [m EXCEPT !.st = "end", !.th = Fresh, !.safe = TRUE, !.ch = <<>>]
   ELSE IF target = "DONE" THEN
        \* the current thread is over; an older thread goes on, otherwise the turn stops
-       IF Len(m.th) > 1 THEN [m EXCEPT !.th = Tail(m.th)] ELSE [m EXCEPT !.st = "stopping", !.th = << <<>> >>, !.safe = TRUE]
+       IF Len(m.th) > 1 THEN [m EXCEPT !.th = Tail(m.th)] ELSE [Halt(m) EXCEPT !.st = "stopping", !.safe = TRUE]
   ELSE IF ~IsKnot(target) THEN Fail(m, "divert target not found")
   ELSE LET m1 == Enter(m, target)
            a == CurAct(m1) IN
@@ -213,7 +219,7 @@ PopFrame(m) ==
        ELSE \* out of content (in a tunnel, too: nothing returns implicitly): a forked thread gives way to the thread
             \* below it, otherwise the flow stops - an error unless choices are on offer (Settle)
             IF Len(m.th) > 1 THEN [m EXCEPT !.th = Tail(m.th)]
-            ELSE [m EXCEPT !.st = "stopping", !.th = << <<>> >>]
+            ELSE [Halt(m) EXCEPT !.st = "stopping"]
 
 \* generate the choices of a block, in order
 RECURSIVE GenChoices(_, _, _, _)
@@ -287,7 +293,7 @@ Exec(m, s) ==
     [] s.k = "ch"  -> \* the choices are generated; what follows them in the source belongs to the gather (rest), which is
                       \* reached only through a choice: this thread of the flow is over
                       LET m1 == GenChoices(m, s.cs, 1, s.rest) IN
-                      IF Len(m1.th) > 1 THEN [m1 EXCEPT !.th = Tail(m1.th)] ELSE [m1 EXCEPT !.st = "stopping", !.th = << <<>> >>]
+                      IF Len(m1.th) > 1 THEN [m1 EXCEPT !.th = Tail(m1.th)] ELSE [Halt(m1) EXCEPT !.st = "stopping"]
     [] s.k = "end" -> Goto(m, "END")
     [] s.k = "done" -> Goto(m, "DONE")
     [] OTHER -> Fail(m, "unknown statement")
@@ -295,7 +301,7 @@ Exec(m, s) ==
 \* one small step of a running machine
 StepM(m) ==
   LET t == CurThread(m) IN
-  IF t = <<>> THEN [m EXCEPT !.st = "stopping"]
+  IF t = <<>> \/ Head(t).fr = <<>> THEN [m EXCEPT !.st = "stopping"]
   ELSE LET f == Head(Head(t).fr) IN
        IF f.i > Len(Body(f.b)) THEN PopFrame(m) ELSE Exec(m, Body(f.b)[f.i])
 
@@ -306,13 +312,14 @@ Settle(m) ==
   IF vis = <<>> /\ fbs # <<>> THEN
        LET c == fbs[1] IN
        Visit([m EXCEPT !.th = <<c.th>>, !.ch = <<>>, !.st = "run", !.safe = FALSE], c.cid)
-  ELSE IF vis # <<>> THEN [m EXCEPT !.st = "wait", !.ch = vis]
+  ELSE IF vis # <<>> THEN [m EXCEPT !.st = "wait"]      \* (an invisible default stays in the list; the host is not shown it)
   ELSE IF m.st = "end" \/ m.safe THEN [m EXCEPT !.st = "over"]
   ELSE [m EXCEPT !.st = "out"]        \* out of content without END / DONE / choices
 
 \* the player picks the i-th visible choice (0-based)
+Visible(m) == SelectSeq(m.ch, LAMBDA c : ~c.fb)
 Choose(m, i) ==
-  LET c == m.ch[i + 1] IN
+  LET c == Visible(m)[i + 1] IN
   Visit([m EXCEPT !.th = <<c.th>>, !.ch = <<>>, !.out = <<>>, !.st = "run", !.turn = m.turn + 1, !.safe = FALSE], c.cid)
 
 =============================================================================
